@@ -327,7 +327,7 @@ func runC20(t *simrt.Tape, o Opts) Outcome {
 		st.Class = fmt.Sprintf("%s|%v", pol.Class(), keysOf(clauses))
 		st.Sample = map[string]any{"history": h.trace, "policy": pol.String(), "clauses": keysOf(clauses)}
 	})
-	return finish(s, w, st, false)
+	return finish(s, w, st, true)
 }
 
 func base64Prefix(b []byte) string { return base64.StdEncoding.EncodeToString(b) }
